@@ -98,9 +98,20 @@ def trim_trace(trace, limit=14):
     return trace[:limit] + [{"op": "...", "omitted": len(trace) - limit}]
 
 
+def limit_memory():
+    """A run that allocates without bound (a garbage file parsed into periods millennia apart) gets MemoryError, not the OOM killer."""
+    try:
+        import resource
+        cap = int(os.environ.get("VERIF_WORKER_MEM_GB", "6")) * (1 << 30)
+        resource.setrlimit(resource.RLIMIT_AS, (cap, cap))
+    except Exception:
+        pass
+
+
 def do_run(args):
     from sim.kit import core
     faulthandler.enable()
+    limit_memory()
     quiet_stdout()
     pin_environment()
     mod, world_cls = load_world(args.prop)
